@@ -209,7 +209,7 @@ def c08_frame():
 
 # C02: the default-value constructors (`impl Variables { pub fn default_<name>() -> T }`) are emitted items too.  Whether they
 # type-check is rustc's verdict: one bin target per case in /verif/replay-exec/dflt, `cargo check` is the probe (bounded: these cases).
-C02_DEFAULT_CASES = ["scalars", "enum_value", "enum_list", "object_members", "object_nested",
+C02_DEFAULT_CASES = ["scalars", "enum_value", "enum_list", "object_members", "object_nested", "object_struct_name",
                      "recursive_boxed_member", "object_omits_required_with_schema_default", "list_of_nullable_items", "oneof_literal"]
 
 
